@@ -31,7 +31,17 @@ type vnStep struct {
 	Src int    `json:"src"`
 	To  int    `json:"to"`
 	D   int    `json:"d"`
+	Mid int    // sender of a datagram that arrives while the harness is inside natconn.WriteTo for this client datagram (0: none)
 }
+
+// destination token to which the fake outbound conn cannot send
+const vnUnsendable = 3
+
+type vnSendError struct{}
+
+func (vnSendError) Error() string   { return "sendto: invalid argument (fake)" }
+func (vnSendError) Timeout() bool   { return false }
+func (vnSendError) Temporary() bool { return false }
 
 type vnTimeout struct{}
 
@@ -66,6 +76,7 @@ type vnConn struct {
 	ops      []vnOp
 	emitted  int
 	lastRd   int
+	gate     func() // runs once inside the next SetReadDeadline made by onWrite
 	writes   []vnWrite
 }
 
@@ -130,6 +141,10 @@ func (c *vnConn) WriteTo(p []byte, addr net.Addr) (int, error) {
 	if len(c.ops) > 20000 {
 		return len(p), nil
 	}
+	if tok == vnUnsendable { // the fault "a send to the target fails": the association must be left as it is
+		c.ops = append(c.ops, vnOp{op: "we", t: time.Now(), x: tok})
+		return 0, vnSendError{}
+	}
 	c.ops = append(c.ops, vnOp{op: "wr", t: time.Now(), x: tok})
 	c.writes = append(c.writes, vnWrite{data: append([]byte(nil), p...), dst: tok, t: time.Now()})
 	return len(p), nil
@@ -146,8 +161,19 @@ func (c *vnConn) SetReadDeadline(t time.Time) error {
 	}
 	c.ops = append(c.ops, vnOp{op: "dl", t: now, dl: t, why: why, x: c.lastRd})
 	c.deadline = t
+	g := c.gate
+	if why == "write" {
+		c.gate = nil
+	} else {
+		g = nil
+	}
 	c.mu.Unlock()
 	c.signal()
+	if g != nil {
+		// the caller (natconn.onWrite on the "Handle" goroutine) is parked here, just after the new deadline took effect:
+		// a datagram is delivered to this socket and the association's goroutine runs until it blocks again
+		g()
+	}
 	return nil
 }
 
@@ -286,6 +312,7 @@ func (h *vnHarness) emit(m map[string]any) {
 var vnAddrs = map[int]*net.UDPAddr{
 	1: {IP: net.IPv4(192, 0, 2, 10), Port: 4000},
 	2: {IP: net.IPv4(192, 0, 2, 11), Port: 53},
+	3: {IP: net.IPv4(192, 0, 2, 14), Port: 4001}, // vnUnsendable
 	7: {IP: net.IPv4(192, 0, 2, 12), Port: 5000},
 	8: {IP: net.IPv4(192, 0, 2, 13), Port: 53},
 }
@@ -444,7 +471,38 @@ func TestVerifNatmap(t *testing.T) {
 			h.nm = newNATmap(time.Duration(cfg.T)*unit, h.met, noopLogger())
 			h.emit(map[string]any{"ev": "Reset", "beh": bi})
 			shut := false
+			// a TReplyMid right after a CDgram is delivered INSIDE that datagram's WriteTo; any other one is an ordinary reply
+			var steps []vnStep
 			for _, st := range beh {
+				if st.A == "TReplyMid" {
+					if n := len(steps); n > 0 && steps[n-1].A == "CDgram" && steps[n-1].Mid == 0 && steps[n-1].C == st.To {
+						steps[n-1].Mid = st.Src
+						continue
+					}
+					st.A = "TReply"
+				}
+				steps = append(steps, st)
+			}
+			inject := func(fc *vnConn, src int) int {
+				h.nRp++
+				sid := h.nRp
+				payload := []byte(fmt.Sprintf("reply-%d", sid))
+				fc.mu.Lock()
+				nw := 0
+				for _, o := range fc.ops {
+					if o.op == "wr" {
+						nw++
+					}
+				}
+				fc.q = append(fc.q, vnDgram{data: payload, from: vnAddrs[src], tok: src})
+				a := fc.a
+				fc.mu.Unlock()
+				h.replies[sid] = vnReply{a: a, src: src, payload: payload}
+				h.emit(map[string]any{"ev": "SSend", "id": sid, "src": src, "a": a, "sz": len(payload), "nw": nw, "fits": true, "t": h.units(time.Now())})
+				fc.signal()
+				return sid
+			}
+			for _, st := range steps {
 				switch st.A {
 				case "CDgram":
 					ca := vnClientAddr(st.C)
@@ -466,34 +524,52 @@ func TestVerifNatmap(t *testing.T) {
 						fc.a = entry.metrics.(*vnConnMetrics).a
 						fc.mu.Unlock()
 					}
+					midSid := 0
+					fc := entry.PacketConn.(*vnConn)
+					if st.Mid != 0 {
+						fc.mu.Lock()
+						seen := false // nobody knows the source port before the association's first datagram has left
+						for _, o := range fc.ops {
+							if o.op == "wr" {
+								seen = true
+							}
+						}
+						fc.mu.Unlock()
+						if !seen {
+							st.Mid = 0
+						}
+					}
+					if st.Mid != 0 {
+						fc.mu.Lock()
+						fc.gate = func() {
+							midSid = inject(fc, st.Mid)
+							synctest.Wait()
+						}
+						fc.mu.Unlock()
+					}
 					n, werr := entry.WriteTo(payload, vnAddrs[st.Dst])
 					status := "OK"
 					if werr != nil {
 						status = "ERR_WRITE"
 					}
 					entry.metrics.AddPacketFromClient(status, 56, int64(n))
-					h.flush(did, 0)
+					if st.Mid != 0 {
+						fc.mu.Lock()
+						pending := fc.gate != nil
+						fc.gate = nil
+						closed := fc.closed
+						fc.mu.Unlock()
+						if pending && !closed { // onWrite did not move the deadline: the datagram simply arrives after the write
+							midSid = inject(fc, st.Mid)
+						}
+					}
+					h.flush(did, midSid)
 				case "TReply":
 					fc := h.liveConn(st.To)
 					if fc == nil {
 						continue
 					}
-					h.nRp++
-					sid := h.nRp
-					payload := []byte(fmt.Sprintf("reply-%d", sid))
-					fc.mu.Lock()
-					nw := 0
-					for _, o := range fc.ops {
-						if o.op == "wr" {
-							nw++
-						}
-					}
-					fc.q = append(fc.q, vnDgram{data: payload, from: vnAddrs[st.Src], tok: st.Src})
-					a := fc.a
-					fc.mu.Unlock()
-					h.replies[sid] = vnReply{a: a, src: st.Src, payload: payload}
-					h.emit(map[string]any{"ev": "SSend", "id": sid, "src": st.Src, "a": a, "sz": len(payload), "nw": nw, "fits": true, "t": h.units(time.Now())})
-					fc.signal()
+					sid := inject(fc, st.Src)
 					h.flush(0, sid)
 				case "Tick":
 					time.Sleep(time.Duration(st.D) * unit)
